@@ -247,7 +247,6 @@ theorem hist_step {cfg : Config} {s : St} {st : List (Nat × Announced)} {last :
   have hinv := h.inv
   have hn : NodupKeys s.procs := hinv.nodup
   have hn' : NodupKeys (step s r).procs := by obtain ⟨_, hs⟩ := hsim'; exact hs.inv.nodup
-  have hr := h.reuse
   cases r with
   | sample pid tid t km period ip chain =>
     have hst : annStep cfg st (.sample pid tid t km period ip chain) = st := rfl
@@ -591,7 +590,6 @@ theorem sort_step {cfg : Config} {s : St} {st : List (Nat × Announced)} {last :
     (hok : recOk r) (ho : orderedFrom T (r :: post) = true) :
     ∃ T', HSort (step s r) T' ∧ orderedFrom T' post = true := by
   have hinv := h.inv
-  have hr := h.reuse
   cases r with
   | sample pid tid t km period ip chain =>
     by_cases h0 : tid = 0
